@@ -5,19 +5,34 @@ package main
 // fresh cache: put objects of given sizes, let the first scheduler pass run, report the batches the main storage received
 // (= the scheduler's batch cutting), the flushObjs markers left when all workers are idle, and optionally the state after
 // the back-off with an accepting storage. The ops of a sequence are independent and run concurrently.
+//
+// Op `span`: flushes that SPAN scheduler passes. Rounds of puts, each followed by one real scheduler pass, while the
+// first main-storage call that carries a chosen victim id is held open inside the storage (the worker sits in its
+// main-storage put with the batch it was given); there is always one more worker than held calls, so the later passes
+// run to completion over the other objects. Then the held calls end one by one (ok or failure). Observed on the REAL
+// scheduler state at every quiescent point: the calls the storage received, the cache files, the flushObjs markers.
+// The passes are real timer ticks; the only schedule control is (a) the held storage call and (b) a gate on the
+// `writecache.flush.scheduler` fault point that makes the scheduler skip its tick while the harness is in the middle
+// of a round's puts or of ending a held call (so that a pass never sees half a round). Quiescence is awaited by polling
+// for the property's own condition (markers = addresses of the held calls) with a long timeout: a violation is a state
+// that never gets there.
 
 import (
 	"fmt"
 	"os"
 	"path/filepath"
+	"runtime"
 	"sort"
+	"strconv"
 	"strings"
 	"sync"
+	"sync/atomic"
 	"time"
 
 	"github.com/nspcc-dev/neofs-node/pkg/local_object_storage/blobstor/common"
 	"github.com/nspcc-dev/neofs-node/pkg/local_object_storage/blobstor/fstree"
 	"github.com/nspcc-dev/neofs-node/pkg/local_object_storage/writecache"
+	"github.com/nspcc-dev/neofs-node/pkg/util/verifhook"
 	oid "github.com/nspcc-dev/neofs-sdk-go/object/id"
 )
 
@@ -68,6 +83,9 @@ func (s *recStorage) PutBatch(m map[oid.Address][]byte) error {
 // before the first tick, or whose observation came too close to the second tick, is repeated on a fresh cache.
 func wcsCase(c *runCtx, line string) (string, string) {
 	o := parseOp(line)
+	if o.name == "span" {
+		return wcsSpan(c, o, line)
+	}
 	if o.name != "pass" {
 		return line, "=> bad-op"
 	}
@@ -164,38 +182,50 @@ func wcsCaseOnce(c *runCtx, o opLine, line string) (string, string, bool) {
 }
 
 func wcsExec(c *runCtx, ops []string) {
-	type out struct{ op, obs string }
+	verifhook.SetFault(wcsFault)
+	defer verifhook.SetFault(nil)
+	type out struct {
+		op, obs string
+		sub     *runCtx
+	}
 	res := make([]out, len(ops))
 	var wg sync.WaitGroup
 	sem := make(chan struct{}, 6)
-	var mu sync.Mutex
 	for i, line := range ops {
 		wg.Add(1)
 		go func() {
 			defer wg.Done()
 			sem <- struct{}{}
 			defer func() { <-sem }()
-			// runCtx is not concurrency-safe: collect oracle calls under a lock through a per-case shim
+			// runCtx is not concurrency-safe: every case collects its oracle calls in a shim of its own
 			sub := &runCtx{prop: c.prop, hist: map[string]int{}, distinct: map[[8]byte]struct{}{}}
 			op, obs := wcsCase(sub, line)
-			mu.Lock()
-			res[i] = out{op, obs}
-			c.nOracle += sub.nOracle
-			for _, f := range sub.failures {
-				f.Ops = []string{op}
-				f.Seq = c.nSeq
-				c.failures = append(c.failures, f)
-				c.count("oracle_fail:" + f.Assertion)
-			}
-			mu.Unlock()
+			res[i] = out{op, obs, sub}
 		}()
 	}
 	wg.Wait()
+	// merged in op order; one witness per assertion and run is kept (every kept witness is replayed by the pipeline, and a
+	// violating case takes its time-outs)
+	kept := map[string]bool{}
 	for _, r := range res {
 		o := parseOp(r.op)
 		c.count(o.name)
 		c.emit(r.op, r.obs)
+		c.nOracle += r.sub.nOracle
+		for _, f := range r.sub.failures {
+			c.count("oracle_fail:" + f.Assertion)
+			if kept[f.Assertion] {
+				continue
+			}
+			kept[f.Assertion] = true
+			f.Ops = []string{r.op}
+			f.Seq = c.nSeq
+			c.failures = append(c.failures, f)
+		}
 		if o.kv["fail"] != "0" && o.kv["fail"] != "" {
+			c.nontrivial(r.op)
+		}
+		if o.name == "span" && len(o.ints("stall")) > 0 && len(o.ints("rounds")) > 1 {
 			c.nontrivial(r.op)
 		}
 	}
@@ -230,5 +260,469 @@ func wcsGen(c *runCtx, run func([]string)) {
 		}
 		add(ps, []int{2, 3, 128}[c.rng.IntN(3)], []int{900, 1000000}[c.rng.IntN(2)], c.rng.IntN(4), wait)
 	}
-	run(ops)
+	// flushes that span scheduler passes: 2..3 rounds of 1..4 objects, 1..2 held calls (victims mostly in the earlier
+	// rounds, anywhere in the sorted order), each ending ok or with a failure; a failure is followed through the back-off
+	all := append(append([]int{}, small...), big...)
+	var spans []string
+	for i := 0; i < c.n(8, 40); i++ {
+		nr := 2 + c.rng.IntN(2)
+		var rounds, ps []int
+		perm := c.rng.Perm(len(all))
+		for r := 0; r < nr; r++ {
+			n := 1 + c.rng.IntN(4)
+			if len(ps)+n > len(all) {
+				n = len(all) - len(ps)
+			}
+			if n == 0 {
+				break
+			}
+			rounds = append(rounds, n)
+			for k := 0; k < n; k++ {
+				ps = append(ps, all[perm[len(ps)]])
+			}
+		}
+		nv := 1 + c.rng.IntN(2)
+		var stall, ends []int
+		early := len(ps) - rounds[len(rounds)-1]
+		for _, v := range c.rng.Perm(len(ps)) {
+			if len(stall) == nv {
+				break
+			}
+			if v < early || c.rng.IntN(4) == 0 {
+				stall = append(stall, v+1)
+				ends = append(ends, c.rng.IntN(2))
+			}
+		}
+		wait := 0
+		for _, e := range ends {
+			if e == 0 {
+				wait = 1
+			}
+		}
+		spans = append(spans, fmt.Sprintf("wcsched span psizes=%s rounds=%s thr=1200 count=%d size=%d stall=%s end=%s wait=%d", joinInts(ps), joinInts(rounds),
+			[]int{2, 3, 128}[c.rng.IntN(3)], []int{900, 1000000}[c.rng.IntN(2)], joinInts(stall), joinInts(ends), wait))
+	}
+	// the span cases go first: a difference is reported with the ops that precede it in the sequence
+	run(append(spans, ops...))
+}
+
+// ---------------------------------------------------------------------------------------------------------------------
+// span
+
+// wcsGates: goroutine that called Cache.Init -> gate of that case. The scheduler goroutine of a cache is started by
+// Init (runFlushLoop), so the id of its creator goroutine, read from its own stack trace ("created by … in goroutine N"),
+// tells the fault callback which case the asking scheduler belongs to (the hook itself carries only the point name).
+var wcsGates sync.Map
+
+func wcsGoids() (self, creator int64) {
+	buf := make([]byte, 16384)
+	st := string(buf[:runtime.Stack(buf, false)])
+	num := func(s string) int64 {
+		n := 0
+		for n < len(s) && s[n] >= '0' && s[n] <= '9' {
+			n++
+		}
+		v, err := strconv.ParseInt(s[:n], 10, 64)
+		if err != nil {
+			return -1
+		}
+		return v
+	}
+	self, creator = -1, -1
+	if strings.HasPrefix(st, "goroutine ") {
+		self = num(st[len("goroutine "):])
+	}
+	if i := strings.LastIndex(st, " in goroutine "); i >= 0 {
+		creator = num(st[i+len(" in goroutine "):])
+	}
+	return
+}
+
+func wcsFault(name string) error {
+	if name != "writecache.flush.scheduler" {
+		return nil
+	}
+	_, creator := wcsGoids()
+	if g, ok := wcsGates.Load(creator); ok {
+		gt := g.(*wcsGate)
+		gt.asked.Add(1)
+		gt.last.Store(time.Now().UnixNano())
+		if gt.closed.Load() {
+			return errInjected
+		}
+	}
+	return nil
+}
+
+type wcsGate struct {
+	closed atomic.Bool
+	asked  atomic.Int64 // ticks of this case's scheduler seen by the gate (shows that the dispatch works)
+	last   atomic.Int64 // time of the last tick seen
+}
+
+// shut closes the gate and gives a pass that was let through a moment ago the time to take its snapshot of the
+// counters (the first thing a pass does), so that what the harness does next falls entirely after that snapshot.
+func (g *wcsGate) shut() {
+	g.closed.Store(true)
+	for time.Since(time.Unix(0, g.last.Load())) < 40*time.Millisecond {
+		time.Sleep(5 * time.Millisecond)
+	}
+}
+
+type spanCall struct {
+	ids     []int
+	held    bool
+	done    bool
+	release chan bool
+}
+
+// spanStorage records every write call of the main storage and holds open the first call that carries an armed id.
+type spanStorage struct {
+	*fstree.FSTree
+	mu      sync.Mutex
+	calls   []*spanCall
+	armed   map[int]bool
+	inProg  map[int]int
+	overlap []int // ids that reached the storage while another call with the same id was still in progress
+}
+
+func (s *spanStorage) do(ids []int, put func() error) error {
+	sort.Ints(ids)
+	s.mu.Lock()
+	cl := &spanCall{ids: ids, release: make(chan bool, 1)}
+	for _, id := range ids {
+		if s.inProg[id] > 0 {
+			s.overlap = append(s.overlap, id)
+		}
+		s.inProg[id]++
+		if s.armed[id] {
+			cl.held = true
+		}
+	}
+	if cl.held {
+		for _, id := range ids {
+			delete(s.armed, id)
+		}
+	}
+	s.calls = append(s.calls, cl)
+	held := cl.held
+	s.mu.Unlock()
+	ok := true
+	if held {
+		ok = <-cl.release
+	}
+	var err error
+	if ok {
+		err = put()
+	} else {
+		err = errInjected
+	}
+	s.mu.Lock()
+	cl.held, cl.done = false, true
+	for _, id := range ids {
+		s.inProg[id]--
+	}
+	s.mu.Unlock()
+	return err
+}
+
+func (s *spanStorage) Put(a oid.Address, d []byte) error {
+	return s.do([]int{oidNum(a.Object())}, func() error { return s.FSTree.Put(a, d) })
+}
+
+func (s *spanStorage) PutBatch(m map[oid.Address][]byte) error {
+	var ids []int
+	for a := range m {
+		ids = append(ids, oidNum(a.Object()))
+	}
+	return s.do(ids, func() error { return s.FSTree.PutBatch(m) })
+}
+
+// snapshot: ids of held calls, ids of calls in progress that are not held, ids seen by any call, rendering of the calls from index `from`
+func (s *spanStorage) snapshot(from int) (held, busy []int, seen map[int]bool, calls string, n int) {
+	s.mu.Lock()
+	defer s.mu.Unlock()
+	seen = map[int]bool{}
+	var cs [][]int
+	for i, cl := range s.calls {
+		for _, id := range cl.ids {
+			seen[id] = true
+		}
+		if cl.held {
+			held = append(held, cl.ids...)
+		} else if !cl.done {
+			busy = append(busy, cl.ids...)
+		}
+		if i >= from {
+			cs = append(cs, cl.ids)
+		}
+	}
+	sort.Ints(held)
+	sort.Slice(cs, func(i, j int) bool { return cs[i][0] < cs[j][0] })
+	calls = "-"
+	if len(cs) > 0 {
+		calls = ""
+		for _, b := range cs {
+			calls += "[" + joinInts(b) + "]"
+		}
+	}
+	return held, busy, seen, calls, len(s.calls)
+}
+
+func (s *spanStorage) heldCall(id int) *spanCall {
+	s.mu.Lock()
+	defer s.mu.Unlock()
+	for _, cl := range s.calls {
+		if cl.held {
+			for _, x := range cl.ids {
+				if x == id {
+					return cl
+				}
+			}
+		}
+	}
+	return nil
+}
+
+func (s *spanStorage) releaseAll() {
+	s.mu.Lock()
+	defer s.mu.Unlock()
+	for _, cl := range s.calls {
+		if cl.held {
+			select {
+			case cl.release <- true:
+			default:
+			}
+		}
+	}
+}
+
+func intsEq(a, b []int) bool {
+	if len(a) != len(b) {
+		return false
+	}
+	for i := range a {
+		if a[i] != b[i] {
+			return false
+		}
+	}
+	return true
+}
+
+// how long a quiescent state may take to arrive (a violation is a state that never arrives; once one wait of a case
+// has timed out the later waits of that case are cut short)
+const wcsSpanTimeout = 5 * time.Second
+
+func wcsSpan(c *runCtx, o opLine, line string) (string, string) {
+	for _, k := range []string{"psizes", "rounds", "thr", "count", "size", "stall", "end"} {
+		if _, ok := o.kv[k]; !ok {
+			return line, "=> bad-op"
+		}
+	}
+	psizes, rounds, stall, ends := o.ints("psizes"), o.ints("rounds"), o.ints("stall"), o.ints("end")
+	tot := 0
+	for _, n := range rounds {
+		if n <= 0 {
+			return line, "=> bad-op"
+		}
+		tot += n
+	}
+	if tot != len(psizes) || len(stall) != len(ends) {
+		return line, "=> bad-op"
+	}
+	for i, v := range stall {
+		if v <= 0 || v > len(psizes) || ends[i] < 0 || ends[i] > 1 {
+			return line, "=> bad-op"
+		}
+	}
+	dir := scratchDir("wcsched")
+	defer os.RemoveAll(dir)
+	main := &spanStorage{FSTree: fstree.New(fstree.WithPath(filepath.Join(dir, "main")), fstree.WithDepth(1), fstree.WithNoSync(true)),
+		armed: map[int]bool{}, inProg: map[int]int{}}
+	for _, v := range stall {
+		main.armed[v] = true
+	}
+	if err := main.Open(false); err != nil {
+		panic(err)
+	}
+	if err := main.Init(common.ID{}); err != nil {
+		panic(err)
+	}
+	defer main.Close()
+	wc := writecache.New(writecache.WithPath(filepath.Join(dir, "wc")), writecache.WithStorage(main), writecache.WithNoSync(true),
+		writecache.WithFlushWorkersCount(len(stall)+1), writecache.WithMaxFlushBatchThreshold(o.u64("thr")),
+		writecache.WithMaxFlushBatchCount(o.int("count")), writecache.WithMaxFlushBatchSize(o.u64("size")))
+	if err := wc.Open(false); err != nil {
+		panic(err)
+	}
+	gate := &wcsGate{}
+	gate.closed.Store(true)
+	self, _ := wcsGoids()
+	wcsGates.Store(self, gate)
+	defer wcsGates.Delete(self)
+	if err := wc.Init(common.ID{}); err != nil {
+		panic(err)
+	}
+	defer wc.Close()
+	defer main.releaseAll() // Close waits for the workers
+
+	state := func() (string, []int, []int) {
+		files, _ := writecache.VerifFileAddrs(wc)
+		var fs, infl []int
+		for _, a := range files {
+			fs = append(fs, oidNum(a.Object()))
+		}
+		for _, a := range writecache.VerifInflight(wc) {
+			infl = append(infl, oidNum(a.Object()))
+		}
+		sort.Ints(fs)
+		sort.Ints(infl)
+		return fmt.Sprintf("files=%s infl=%s", joinInts(fs), joinInts(infl)), fs, infl
+	}
+	// quiescent: every id put so far has reached the storage, only the held calls are in progress and the markers
+	// are exactly the addresses of the held calls (the workers holding them are the only running jobs)
+	nput := 0
+	quiet := func() bool {
+		held, busy, seen, _, _ := main.snapshot(0)
+		if len(busy) > 0 {
+			return false
+		}
+		for id := 1; id <= nput; id++ {
+			if !seen[id] {
+				return false
+			}
+		}
+		_, _, infl := state()
+		return intsEq(held, infl)
+	}
+	timedOut := false
+	await := func(cond func() bool) bool {
+		dl := time.Now().Add(wcsSpanTimeout)
+		if timedOut {
+			dl = time.Now().Add(wcsSpanTimeout / 4)
+		}
+		for !cond() {
+			if time.Now().After(dl) {
+				timedOut = true
+				return false
+			}
+			time.Sleep(3 * time.Millisecond)
+		}
+		return true
+	}
+	check := func(where string) string {
+		held, _, _, _, _ := main.snapshot(0)
+		st, _, infl := state()
+		c.oracle("flush-markers-are-exactly-the-batches-held-by-workers", intsEq(held, infl),
+			fmt.Sprintf("%s: the only running flush jobs hold %v (their main-storage put is still open), flushObjs marks %v", where, held, infl))
+		main.mu.Lock()
+		ov := append([]int(nil), main.overlap...)
+		main.mu.Unlock()
+		c.oracle("an-object-is-never-handed-to-two-workers-at-once", len(ov) == 0,
+			fmt.Sprintf("%s: %v reached the main storage while another flush of the same object was still running", where, ov))
+		return st
+	}
+
+	var lens []int
+	var res strings.Builder
+	res.WriteString("=> ok")
+	from := 0
+	for r, n := range rounds {
+		gate.shut()
+		for k := 0; k < n; k++ {
+			i := nput + k
+			obj := mkObject(1, i+1, detPayload(psizes[i], i+1))
+			data := obj.Marshal()
+			lens = append(lens, len(data))
+			if err := wc.Put(numAddr(1, i+1), obj, data); err != nil {
+				panic(err)
+			}
+		}
+		nput += n
+		gate.closed.Store(false)
+		await(quiet)
+		st := check(fmt.Sprintf("after the pass of round %d", r+1))
+		_, _, _, calls, ncalls := main.snapshot(from)
+		from = ncalls
+		fmt.Fprintf(&res, " | pass calls=%s %s", calls, st)
+	}
+	anyFail := false
+	var failedAt time.Time
+	for i, v := range stall {
+		cl := main.heldCall(v)
+		if cl == nil {
+			res.WriteString(" | end -")
+			continue
+		}
+		given := append([]int(nil), cl.ids...)
+		gate.shut()
+		cl.release <- ends[i] == 1
+		if ends[i] == 0 && !anyFail {
+			anyFail, failedAt = true, time.Now()
+		}
+		// the worker is done when its call has returned, (ok:) its files have left the cache, and the markers of the
+		// addresses it was given are gone
+		okw := await(func() bool {
+			main.mu.Lock()
+			done := cl.done
+			main.mu.Unlock()
+			if !done {
+				return false
+			}
+			_, fs, infl := state()
+			for _, id := range given {
+				if containsInt(infl, id) || (ends[i] == 1 && containsInt(fs, id)) {
+					return false
+				}
+			}
+			return true
+		})
+		_, _, infl := state()
+		c.oracle("a-finished-worker-has-unmarked-every-address-it-was-given", okw,
+			fmt.Sprintf("the worker that was given %v is done (its main-storage put returned ok=%v %v ago), flushObjs still marks %v", given, ends[i] == 1, wcsSpanTimeout, infl))
+		await(quiet)
+		st := check(fmt.Sprintf("after the held flush of %v ended (ok=%v)", given, ends[i] == 1))
+		gate.closed.Store(false)
+		fmt.Fprintf(&res, " | end %s", st)
+	}
+	final := func(where string) {
+		_, fs, _ := state()
+		var missing []int
+		for id := 1; id <= nput; id++ {
+			if _, err := main.FSTree.Get(numAddr(1, id)); err != nil {
+				missing = append(missing, id)
+			}
+		}
+		c.oracle("cache-is-emptied-once-the-storage-accepts-writes", len(fs) == 0 && len(missing) == 0,
+			fmt.Sprintf("%s the cache still holds %v, the main storage lacks %v", where, fs, missing))
+	}
+	if o.kv["wait"] == "1" {
+		if anyFail {
+			// error back-off (10 s) + the pass that follows it
+			time.Sleep(time.Until(failedAt.Add(10 * time.Second)))
+			await(func() bool { _, fs, _ := state(); return len(fs) == 0 && quiet() })
+		}
+		st := check("after the back-off")
+		final("every main-storage call since the failure succeeded; more than 11 s after it (back-off 10 s, tick 1 s)")
+		fmt.Fprintf(&res, " | later %s", st)
+	} else if !anyFail {
+		final("no main-storage call failed, all workers are idle, yet")
+	}
+	if gate.asked.Load() == 0 {
+		panic("wcsched span: the fault-point dispatch by creator goroutine did not find this case's scheduler (harness defect)")
+	}
+	full := line
+	if _, ok := o.kv["lens"]; !ok {
+		full = line + " lens=" + joinInts(lens)
+	}
+	return full, res.String()
+}
+
+func containsInt(xs []int, x int) bool {
+	for _, y := range xs {
+		if y == x {
+			return true
+		}
+	}
+	return false
 }
